@@ -52,6 +52,9 @@ type obs struct {
 	TLS    bool     `json:"tls"`
 	Closed bool     `json:"closed"`
 	Caps   capsObs  `json:"caps"`
+	// After counts the responses to commands that were pipelined, in the same write, behind a command
+	// that ends the connection: the specification says that nothing happens after "logout"
+	After int `json:"after"`
 }
 
 type event struct {
@@ -131,6 +134,18 @@ type peer struct {
 	stub *vh.ScriptSession
 	srv  *srvT
 	dead bool
+	last string // state observed after the previous step
+}
+
+// trailer is sent in the same write as a command that is going to end the connection (LOGOUT, or an
+// unknown command before authentication): the commands would be accepted in the state before it.
+const trailer = "zz1 LOGIN user pass\r\nzz2 SELECT INBOX\r\nzz3 STATUS probe (MESSAGES)\r\nzz4 NOOP\r\n"
+
+func (p *peer) closing(ev *event) bool {
+	if ev.Exp != nil {
+		return ev.Exp.Closed && ev.C != "IDLE" && !strings.HasPrefix(ev.C, "AUTHENTICATE")
+	}
+	return ev.V != "bad" && (ev.C == "LOGOUT" || ev.C == "XUNKNOWN" && p.last == "notauth")
 }
 
 func dial(cfg config) (*peer, error) {
@@ -161,6 +176,10 @@ func dial(cfg config) (*peer, error) {
 	}
 	if g.Name != want {
 		return nil, fmt.Errorf("greeting %q, configuration wants %s", g.Raw, want)
+	}
+	p.last = "notauth"
+	if cfg.PreAuth {
+		p.last = "auth"
 	}
 	return p, nil
 }
@@ -227,10 +246,23 @@ func cmdText(c, v string) string {
 
 // run executes one command mechanically and observes.
 func (p *peer) run(ev *event) (*obs, error) {
+	o, err := p.run1(ev)
+	if o != nil {
+		p.last = o.State
+	}
+	return o, err
+}
+
+func (p *peer) run1(ev *event) (*obs, error) {
 	o := &obs{Calls: []string{}}
 	p.stub.Begin(ev.F)
 	tag := p.raw.NextTag()
-	if err := p.raw.Send(tag + " " + cmdText(ev.C, ev.V) + "\r\n"); err != nil {
+	line := tag + " " + cmdText(ev.C, ev.V) + "\r\n"
+	piped := p.closing(ev)
+	if piped {
+		line += trailer
+	}
+	if err := p.raw.Send(line); err != nil {
 		return nil, fmt.Errorf("send: %v", err)
 	}
 	eof := false
@@ -261,7 +293,17 @@ func (p *peer) run(ev *event) (*obs, error) {
 			} else {
 				o.Tagged = "NOTOK"
 			}
+			if piped {
+				continue // read on: the connection is expected to end without another tagged response
+			}
 			break
+		}
+		if piped && strings.HasPrefix(r.Tag, "zz") {
+			o.After++
+			if r.Tag == "zz4" {
+				break
+			}
+			continue
 		}
 		if r.Tag != "*" {
 			return nil, fmt.Errorf("response with foreign tag: %q", r.Raw)
@@ -271,6 +313,13 @@ func (p *peer) run(ev *event) (*obs, error) {
 			o.Bye = true
 		case "RECENT":
 			o.Recent = true
+		}
+	}
+	if eof && piped {
+		// the server may close its end before the serve loop stops: calls made for the pipelined
+		// commands are only complete once the session has been closed
+		for i := 0; i < 20000 && p.stub.CloseCount() == 0; i++ {
+			time.Sleep(100 * time.Microsecond)
 		}
 	}
 	for _, c := range p.stub.Calls() {
@@ -370,6 +419,8 @@ func diff(ev *event, got *obs) (string, string) {
 	switch {
 	case got.Closed != e.Closed:
 		return "closed/" + ev.C, fmt.Sprintf("connection closed=%v, spec predicts %v", got.Closed, e.Closed)
+	case got.After != 0:
+		return "after-close/" + ev.C, fmt.Sprintf("%d commands pipelined behind the closing command were answered", got.After)
 	case got.Tagged != e.Tagged:
 		return "tagged/" + ev.C, fmt.Sprintf("tagged %q, spec predicts %q", got.Tagged, e.Tagged)
 	case strings.Join(got.Calls, ",") != strings.Join(e.Calls, ","):
